@@ -257,3 +257,19 @@ PLANS["C20"].proofs += [("contracts.parsing", n) for n in _PA.ALL]
 
 for _pid in ("C11", "C13"):      # the difference unit belongs to the operands' registry
     PLANS[_pid].proofs += [("contracts.unit_ops", "DifferenceUnits")]
+
+# equivalences (C09): formulas / refusal / frames proved per equivalence and direction through the
+# __array_ufunc__ contracts of the configurations they use; round trips and compositions as lemmas
+from contracts import equivalence as _EQ, lemmas_c09 as _L9   # noqa: E402
+_EQV = [("contracts.ufunc", n) for n in _U.EQUIV_VARIANTS]
+PLANS["C09"].proofs += [("contracts.equivalence", n) for n in _EQ.ALL] + _EQV
+PLANS["C09"].lemmas += [("contracts.lemmas_c09", n) for n in _L9.ALL]
+PLANS["C04"].proofs += _EQV
+PLANS["C18"].proofs += [p for p in _EQV if "_out_" in p[1]] + [("contracts.equivalence", n) for n in _EQ.ALL]
+PLANS["C16"].proofs += [p for p in _EQV if "_out_" not in p[1]]
+
+# bounded stand-ins next to the proofs (never counted as proved): exhaustive / sampled drivers over
+# dtypes, view layouts, unit pairs, registries -- the parts the real-arithmetic encoding cannot see
+for _pid in ("C02", "C03", "C05", "C15", "C17", "C18"):
+    if PLANS[_pid].bounded is None:
+        PLANS[_pid].bounded = ("bounded/c%s.py" % _pid[1:], [], [])
